@@ -21,6 +21,7 @@ CONST = """CONSTANTS
   AllTargets = {alltargets}
   MCScn = "{scn}"
   SeqNs <- SeqNsDef
+  SeqFs <- SeqFsDef
   SeqOrders <- SeqOrdersDef
 CHECK_DEADLOCK FALSE
 """
@@ -43,14 +44,14 @@ def run(ctx):
         "the block store is observed for one slot and blocks of one or two slices; shreds enter through add_shred_from_dissemination (the repair path shares BlockData::add_shred)"]
     if quick:
         base_idx, zero_idx, alltargets = [0, 5, 31, 32, 63], [0, 1, 10, 30, 31, 40], "FALSE"
-        seq_ns, seq_orders = [0, 1, 2, 31], ['"asc"']
+        seq_ns, seq_fs, seq_orders = [0, 1, 2, 31], [3, 40], ['"asc"']
         store = {"correct": (6, 3), "byz": (4, 2)}
     else:
         base_idx, zero_idx, alltargets = list(range(64)), list(range(64)), "TRUE"
-        seq_ns, seq_orders = [0, 1, 2, 5, 16, 30, 31], ['"asc"', '"desc"', '"mix"']
+        seq_ns, seq_fs, seq_orders = [0, 1, 2, 5, 16, 30, 31], [0, 3, 31, 32, 40, 63], ['"asc"', '"desc"', '"mix"']
         store = {"correct": (8, 4), "byz": (6, 3)}
     wdefs = (f"BaseIdxDef == {tset(base_idx)}\nZeroIdxDef == {tset(zero_idx)}\n"
-             f"SeqNsDef == {tset(seq_ns)}\nSeqOrdersDef == {tset(seq_orders)}\n")
+             f"SeqNsDef == {tset(seq_ns)}\nSeqFsDef == {tset(seq_fs)}\nSeqOrdersDef == {tset(seq_orders)}\n")
 
     def const(total, data, scn="correct", ascoded="FALSE"):
         return CONST.format(total=total, data=data, scn=scn, ascoded=ascoded, alltargets=alltargets)
